@@ -115,11 +115,50 @@ def r5(ctx):
                   key="C11|C11.R5|Node::new_blank|derived fields")
 
 
-RULES = [r123, r4, r5]
+def _propagated(e):
+    """an error value that is some callee's error handed on (what `?` builds), possibly converted"""
+    e = strip(e)
+    while isinstance(e, tuple) and e[0] == "call" and e[2].split("::")[-1] in ("from", "into") and e[3]:
+        e = strip(e[3][0])
+    if isinstance(e, tuple) and e[0] == "join":
+        return all(_propagated(x) for x in e[1])
+    return isinstance(e, tuple) and e[0] == "err"
+
+
+def r6(ctx):
+    """the three functions of a wire type fail only where a primitive fails: encode accepts every
+    value of the type, so a decoder that makes up an error of its own for some decoded values (a
+    'sanity check' on the fields) refuses the valid encoding of those values — decoding no longer
+    yields the original value; likewise encode / encoded_size must not refuse a value.  Clause:
+    every Err these functions return is the error of a callee, handed on."""
+    rule = "C11.R6"
+    fns = codec_fns(ctx)
+    n = 0
+    for ty in REF:
+        for kind in ("decode", "encode", "size"):
+            fa = fns.get(ty, {}).get(kind)
+            if fa is None:
+                continue
+            n += 1
+            own = []
+            for bb, _, t_ in ret_assigns(fa):
+                tt = strip(t_)
+                if isinstance(tt, tuple) and tt[0] == "call" and tt[2].endswith("from_residual"):
+                    continue
+                if is_agg(tt, "Err", "std::result::Result") and not _propagated(agg_field(tt, "0")):
+                    own.append("%s at %s" % (term_str(agg_field(tt, "0"))[:70], loc(fa, bb)))
+            ctx.check(P, rule, "%s::%s fails only where a primitive codec fails" % (ty, kind), not own, "every Err is a callee's error handed on",
+                      "%s::%s returns an error of its own (%s): %s" % (ty, kind, own, "a valid encoding of a value with such fields is refused, so decoding does not give the value back" if kind == "decode" else "a value of the type cannot be encoded"),
+                      key="C11|C11.R6|%s::%s|own error" % (ty, kind))
+    if n < 24 and ctx.crate.name == "hypercore":
+        ctx.missing(P, rule, "size / encode / decode functions of the eight wire types", "found %d (floor 24)" % n)
+
+
+RULES = [r123, r4, r5, r6]
 EXPLANATION = ("C11 (wire messages round-trip and follow the compact-encoding layout): for each of the eight protocol types decides, on the MIR of the three functions of its "
                "CompactEncoding impl (macro and hand-written forms alike), that encode writes the reference field sequence with the reference byte shapes (varint / length-prefixed bytes / "
                "32 fixed bytes / node list), that decode consumes the same shapes in the same order and puts the k-th value into the k-th encoded field, and that encoded_size sums exactly "
                "those fields plus a constant equal to the fixed bytes written (R1-R3); that every panic-capable construct reachable from the eight decode functions is discharged (R4, shared "
-               "engine with C09); that Node::new calls flat_tree's partial functions only under a depth guard and Node::new_blank builds a 32-byte hash and the same derived (non-wire) fields as Node::new, which the decoders use (R5).")
+               "engine with C09); that Node::new calls flat_tree's partial functions only under a depth guard and Node::new_blank builds a 32-byte hash and the same derived (non-wire) fields as Node::new, which the decoders use (R5); that the size / encode / decode functions of the eight types return no error of their own — only a primitive codec's error handed on — so that no valid encoding is refused by a check on its decoded fields (R6).")
 NOT_DECIDED = "byte-level varint boundaries and length checks (inside the compact-encoding dependency); 'nothing left over' for nested decoders beyond shape agreement; equality of values (round-trip) as such."
 ASSUMPTIONS = ["compact_encoding's primitive encoders/decoders implement the compact-encoding spec and return Err on short input"]
